@@ -285,6 +285,9 @@ def _tail_list(objs, ids, others):
     return ent[1].setdefault(tuple(ids), others)
 
 
+_PATHS = {}      # id(disk-backed object) -> its path (reopen steps)
+
+
 def call(objs, st, tmp):
     """Execute one step; returns the new object or None (queries)."""
     act, a = st['act'], st.get('args', {})
@@ -331,6 +334,27 @@ def call(objs, st, tmp):
             kw[fn['d']] = fn['f'] if fn['kind'] == 'reducer' \
                 else CALLABLES[fn['f']]
         return f.applyAlongDimensions(**kw)
+    if act == 'reopen':
+        # the file written to disk and opened again: a disk-backed object
+        # (what it presents is C07's business; it is an input of later steps)
+        import PseudoNetCDF as pnc
+        path = os.path.join(tmp, 'obj%d_%d.nc' % (len(objs), st.get('_n', 0)))
+        o = f.save(path, format=a.get('format', 'NETCDF4_CLASSIC'), verbose=0)
+        try:
+            o.close()
+        except Exception:
+            pass
+        g = pnc.pncopen(path, format='netcdf')
+        _PATHS[id(g)] = path
+        return g
+    if act == 'stack' and a.get('via') in ('pncmfopen', 'open_mfdataset'):
+        # the multi-file open helpers: paths in, stack() of the opened files out
+        import PseudoNetCDF as pnc
+        paths = [_PATHS[id(o)] for o in [f] + list(others)]
+        if a['via'] == 'pncmfopen':
+            return pnc.pncmfopen(paths, stackdim=a['dim'], format='netcdf')
+        from PseudoNetCDF.core._files import netcdf
+        return netcdf.open_mfdataset(*paths, stackdim=a['dim'])
     if act == 'stack':
         if a.get('via') == 'stack_files':
             # the module-level entry point (used by the command line tools)
